@@ -1141,3 +1141,18 @@ Proof.
       pose proof (Hfin l1 (j, u, b') (l2 ++ [(i, v, b)]) ltac:(rewrite E, El, <- app_assoc; reflexivity)) as F. cbn [x_item fst] in F.
       destruct (l2 ++ [(i, v, b)]) eqn:E2; [destruct l2; discriminate|exact F].
 Qed.
+
+(* the same for an exchange with a single reply (the default into_stream) *)
+Theorem call_on_serialised_reply_single {A B} cfg (h : A -> N -> value -> option (cres B) * A) fin q T id k v b rest fuel w acc :
+  q_mode q = Single ->
+  w_cur w = Some id -> valid_id w id -> settled (get_conn w id) ->
+  k_buf (get_conn w id) = [128; 0; 0] ++ b ++ rest ->
+  nodup_cf (map v_cf (q_replies q)) = true -> reply_ok (q_replies q) (k, v, b) -> (1 < fuel)%nat ->
+  fst (consume fuel cfg (start_retry q T) w acc h fin) = run_handler h fin acc [(k, v)].
+Proof.
+  intros Hm C Hv Hs Hb Hnd Hok Hf.
+  apply (call_on_buffered_replies cfg h fin q T id 0 [(k, v)] fuel w acc C Hv Hs); [| |cbn; lia].
+  - rewrite Hb. unfold run_seq_fuel. destruct (rp_ack (b ++ rest)) as [ia [va Ra]]. rewrite Ra, Hm.
+    rewrite (rp_serialised (q_replies q) k v b rest Hnd Hok). reflexivity.
+  - rewrite Hm. exists (k, v). reflexivity.
+Qed.
